@@ -3,6 +3,7 @@ import EtVerif.Props.C01
 import EtVerif.Props.TrC09
 import EtVerif.Props.TrC01
 import EtVerif.Props.TrGo05
+import EtVerif.Props.TrChk
 #print axioms EtVerif.C01.l1_contract
 #print axioms EtVerif.C01.F_contract
 #print axioms EtVerif.C01.fixedpoint_exists_unique
@@ -72,3 +73,10 @@ import EtVerif.Props.TrGo05
 #print axioms EtVerif.TrGo05.go_flatTail_update_stats
 #print axioms EtVerif.TrGo05.go_flatTail_reached_iff
 #print axioms EtVerif.TrGo05.go_flatTail_update_ranking_top
+-- the convergence checker and Norm2 translated from the CURRENT SOURCE simulate the checker Compute is proved with
+#print axioms EtVerif.TrChk.norm2_refines
+#print axioms EtVerif.TrChk.newChecker_refines
+#print axioms EtVerif.TrChk.newChecker_related
+#print axioms EtVerif.TrChk.update_simulates
+#print axioms EtVerif.TrChk.converged_agrees
+#print axioms EtVerif.TrChk.delta_agrees
